@@ -729,6 +729,96 @@ def gen_C17(seed, tier):
     return finish(g, out, samples, len(sigs))
 
 
+
+# ------------------------------------------------------------------------------------------------
+# C13: results do not depend on what was computed before
+def c13_routines(g, mb):
+    """(call line with full state / update flag set, flag-cleared variant or None, documented predecessor)"""
+    bid = all_ids(mb, g, 1)[0]
+    pt = G.point(g)
+    n = G.frs(g.unit_vec())
+    pp = G.point(g)
+    return [
+        ("call ID", None, None), ("call NE", None, None), ("call FD", None, None),
+        ("call CRBA 1", "call CRBA 0", "call UKC 1"), ("call MINV 1", "call MINV 0", "call MINV 1"),
+        ("call B2B %d %s 1" % (bid, pt), "call B2B %d %s 0" % (bid, pt), "call UKC 1"),
+        ("call BASE2B %d %s 1" % (bid, pt), "call BASE2B %d %s 0" % (bid, pt), "call UKC 1"),
+        ("call ORI %d 1" % bid, "call ORI %d 0" % bid, "call UKC 1"),
+        ("call PJ %d %s 1 z" % (bid, pt), "call PJ %d %s 0 z" % (bid, pt), "call UKC 1"),
+        ("call PJ6 %d %s 1 z" % (bid, pt), "call PJ6 %d %s 0 z" % (bid, pt), "call UKC 1"),
+        ("call BSJ %d 1 z" % bid, "call BSJ %d 0 z" % bid, "call UKC 1"),
+        ("call PV %d %s 1" % (bid, pt), "call PV %d %s 0" % (bid, pt), "call UKC 3"),
+        ("call PV6 %d %s 1" % (bid, pt), "call PV6 %d %s 0" % (bid, pt), "call UKC 3"),
+        ("call PA %d %s 1" % (bid, pt), "call PA %d %s 0" % (bid, pt), "call UK"),
+        ("call PA6 %d %s 1" % (bid, pt), "call PA6 %d %s 0" % (bid, pt), "call UK"),
+        ("call COM 1", "call COM 0", "call UKC 7"), ("call COM0 1", None, None),
+        ("call KE 1", "call KE 0", "call UKC 3"), ("call PE 1", "call PE 0", "call UKC 1"),
+        ("call ZMP %s %s 1" % (n, pp), "call ZMP %s %s 0" % (n, pp), "call UKC 7"),
+        ("call LTL", None, None), ("call FDL 1", None, None),
+    ]
+
+
+def gen_C13(seed, tier):
+    g = G.Gen(seed)
+    out, samples, sigs = [], [], set()
+    n = nmodels(tier, 40, 300)
+    for i in range(n):
+        kind = G.KINDS[i % len(G.KINDS)]
+        mb = G.random_model(g, max_joints=4, forced_root=kind if i % 2 == 0 else None,
+                            forced_inner=kind if i % 2 == 1 else None)
+        grav = "gravity %s" % G.frs(g.vec(-3, 3))
+        stA = mb.state_lines()
+        stB = mb.state_lines()
+        fextA = mb.fext_line(0.5)
+        fextB = mb.fext_line(0.5) if g.r.random() < 0.5 else "fext none"
+        R = c13_routines(g, mb)
+        later = g.r.sample(R, 4)
+        hist = [r[0] for r in g.r.sample(R, g.r.randint(1, 3))]
+        base = "c13h%d" % i
+        # pristine: state B, the routines one after another on a fresh model each
+        for k, (call, cleared, pred) in enumerate(later):
+            ca, cb = "%sp%d_%d" % (base, k, i), "%sq%d_%d" % (base, k, i)
+            out += ["case " + ca, grav] + mb.lines + stB + [fextB, call]
+            # polluted: earlier calls with state A, poisoned workspace, then the same call with state B
+            out += ["case " + cb, grav] + mb.lines + stA + [fextA] + hist + \
+                   ["poison %d" % g.r.randint(1, 10 ** 6)] + stB + [fextB, call]
+            out.append("#twinlast %s %s 1" % (ca, cb))
+            g.stats["routine:" + call.split()[1]] += 1
+            if cleared is not None:
+                cc = "%sr%d_%d" % (base, k, i)
+                out += ["case " + cc, grav] + mb.lines + stA + [fextA] + hist + \
+                       ["poison %d" % g.r.randint(1, 10 ** 6)] + stB + [fextB, pred, cleared]
+                out.append("#twinlast %s %s 1" % (ca, cc))
+                g.stats["cleared:" + call.split()[1]] += 1
+            sigs.add((tuple(mb.kinds), call.split()[1], tuple(h.split()[1] for h in hist)))
+        if len(samples) < 3:
+            samples.append({"model": [list(k) for k in mb.kinds], "history": hist, "later": [l[0] for l in later]})
+    # constraint-set workspaces
+    m2 = nmodels(tier, 8, 60)
+    made = 0
+    tries = 0
+    while made < m2 and tries < 5 * m2:
+        tries += 1
+        tag, klasses, ncont = CS_CLEAN[tries % len(CS_CLEAN)]
+        r = G.constrained_case(g, klasses, ncont)
+        if r is None:
+            continue
+        mb, grav, st, cb = r
+        pre = list(cb.lines) + ["cs_bind"] + st
+        later = g.r.choice(["call FDC 0 1 0", "call FDC 1 1 0", "call FDC 2 1 0", "call CSV 1 0", "call CJ 1 0", "call CVE 1 0"])
+        # earlier calls: same (on-manifold) configuration, other velocities / forces
+        stA = [st[0]] + mb.state_lines()[1:]
+        hist = g.r.sample(["call IMP 0", "call FDC 1 1 0", "call CSV 1 0", "call ID", "call FD", "call CRBA 1"], 2)
+        ca, cb_ = "c13cp_%d" % made, "c13cq_%d" % made
+        out += ["case " + ca, grav] + mb.lines + pre + [later]
+        out += ["case " + cb_, grav] + mb.lines + list(cb.lines) + ["cs_bind"] + stA + hist + \
+               ["poison %d" % g.r.randint(1, 10 ** 6)] + st + [later]
+        out.append("#twinlast %s %s 1" % (ca, cb_))
+        g.stats["routine:" + later.split()[1] + later.split()[2]] += 1
+        made += 1
+    return finish(g, out, samples, len(sigs))
+
+
 NOT_YET = {}
 
 COMMON_ASSUMPTIONS = ["double evaluation is compared with exact rational evaluation up to 1e-8*scale",
@@ -786,6 +876,10 @@ PROPS = {
             "rule": "inverse kinematics (both overloads) on random models without quaternion joints: reachable targets (taken from the exact model at a goal configuration), unreachable targets, nearby / random initial guesses, point / XY / Z / orientation / full constraints, weights, three constraint_tol settings, with an iteration-cap probe of the termination test; CalcAssemblyQ from nearby / random guesses and CalcAssemblyQDot on loop-constrained models (incl. spherical joints) with random positive weights",
             "explanation": "certificates with independently evaluated exact kinematics (cos / sin of the returned doubles by a 2^-100 fixed-point series): reported IK success implies residual = reported error norm, termination honours constraint_tol / step_tol (the run capped one step earlier had not met them), outputs finite and correctly sized; assembly success implies |phi(Q)| < tolerance and unit quaternions; assembled velocities satisfy G qdot = 0 and the weighted least-squares optimality condition. Convergence itself is not claimed.",
             "level_text": "partial: soundness of reported success is checked by certificate on every run; the theorems cover the algebra of the returned relations, not convergence of the iterations",
+            "assumptions": COMMON_ASSUMPTIONS},
+    "C13": {"gen": gen_C13,
+            "rule": "for random models and 4 routines each (22 public routines): a pristine model called with state B versus the same model after 1-3 earlier calls with state A and external forces A, then a deterministic poisoning of every free workspace entry, then the call with state B; flag-cleared variants after the documented predecessor; constraint-set routines after earlier calls on the same set; distinct = distinct (model shape, routine, history)",
+            "explanation": "direct statement on the implementation (twin comparison pristine vs polluted, relative 1e-9) plus correspondence of every polluted run with the workspace-passing Lean model given the identical poison",
             "assumptions": COMMON_ASSUMPTIONS},
     "C12": {"gen": gen_C12, "rule": RULE_MODELS + "; random contact plane (unit normal, point off the origin)", "explanation": "monitor: definitions of mass, CoM, momentum, energies, ZMP on jets of the pose specification",
             "assumptions": COMMON_ASSUMPTIONS},
